@@ -185,7 +185,7 @@ func (g *graphGen) block() {
 		}
 		return
 	}
-	switch n := g.r.Intn(27); n {
+	switch n := g.r.Intn(29); n {
 	case 0:
 		g.bind("list", fmt.Sprintf("[%s, %s, %s]", g.scalar(), g.ref(), g.scalar()))
 	case 1:
@@ -264,6 +264,20 @@ func (g *graphGen) block() {
 			default:
 				g.unit("host_dict[%q] = %s\n", g.fresh("hk"), g.leaf())
 			}
+		} else {
+			g.bind("list", g.leaf2("list"))
+		}
+	case 27: // a closure that, when called, mints a new closure over a variable of its enclosing (finished) call
+		mk, in, lf := g.fresh("mkc"), g.fresh("inner"), g.fresh("leafc")
+		g.unit("def %s():\n    x = %s\n    def %s():\n        def %s():\n            return x\n        return %s\n    return %s\n", mk, g.leaf(), in, lf, lf, in)
+		f := g.bind("", mk+"()")
+		g.funcs = append(g.funcs, f)
+	case 28: // module functions that merely USE host-supplied values (never store them)
+		if g.o.Host {
+			f := g.fresh("usehost")
+			g.unit("def %s():\n    return (len(host_list), len(host_dict), [e for e in host_list][:1], \"k\" in host_dict)\n", f)
+			g.any = append(g.any, f)
+			g.funcs = append(g.funcs, f)
 		} else {
 			g.bind("list", g.leaf2("list"))
 		}
